@@ -44,22 +44,25 @@ def yaml_splicer_files(ctx):
                 ast.unparse(c.func) == "splicer.get_splicers" and len(c.args) == 2 and ast.unparse(c.args[1]) == store for c in calls)
     ctx.item("C12/S1/main_with_args:yaml-splicer-files-by-key", ok,
              "files listed under `splicer: <key>:` must be read into splicers[<key>] whatever their names: " + why,
-             confirm=lambda: ctx.monitor("m_splicer_e2e", "search", 10, ctx.seed))
+             confirm=lambda: ctx.monitor("m_splicer_e2e", "search", 25, ctx.seed))
 
 
 def run(ctx):
     from contracts import wrapf_splicer
     mons = dict(MONITORS)
-    mons.update(dict((u.name, ("m_splicer_e2e", gs_inputs, lambda nm: None, 10)) for u in wrapf_splicer.UNITS))
+    mons.update(dict((u.name, ("m_splicer_e2e", gs_inputs, lambda nm: None, 25)) for u in wrapf_splicer.UNITS))
     ctx.pyvc([create_splicer, get_splicers, write_continue_plain, user_line_identity_carved, user_line_identity] + wrapf_splicer.UNITS, mons)
     yaml_splicer_files(ctx)
     # bounded stand-ins (never counted as proved): reader on whole-block orders; end-to-end round trip of every block
     for mon, n, kind in (("m_get_splicers", 1500, "real get_splicers against a reference reader: every order of 2-3 blocks over "
                                                  "6 dotted tags, all files of <= 3 marker/text lines, random files"),
-                         ("m_splicer_e2e", 10, "3 libraries (nested namespaces, classes with overloads and defaults, a C "
-                                               "library) x splicer files on the command line / listed in the YAML by key: one "
-                                               "unique line per block of every generated C and Fortran file comes back in exactly "
-                                               "that block; one namespace scope per module file")):
+                         ("m_splicer_e2e", 25, "3 libraries (nested namespaces, classes with overloads and defaults, a C "
+                                               "library) x splicer files on the command line / listed in the YAML by key / every "
+                                               "block through splicer_code / blocks alternating between file and splicer_code / "
+                                               "every block in both (splicer_code wins): one unique line per block of every "
+                                               "generated C and Fortran file comes back in exactly that block; one namespace scope "
+                                               "per module file; declaration-level splicers (c, c_buf, f) replace exactly their own "
+                                               "block, every other block keeps its default")):
         r = ctx.monitor(mon, "search", n, ctx.seed)
         ctx.bounded.append({"monitor": mon, "kind": "bounded: " + kind, "inputs_tried": r["tried"], "violation": r["violation"]})
         if r["violation"]:
@@ -78,7 +81,8 @@ def run(ctx):
     ctx.not_covered += [
         "correspondence between the reader's path for tag a.b.c and the emitters' splicer_stack after _push_splicer: "
         "end-to-end bounded monitor only (m_splicer_e2e); Wrapf.wrap_namespace proved for 0-2 nested namespaces",
-        "precedence of command-line splicer files / YAML splicer / splicer_code in main_with_args",
+        "precedence of command-line splicer files / YAML splicer / splicer_code / declaration-level splicers: bounded "
+        "monitor m_splicer_e2e only (main.update_splicers and the node.splicer lookups of the emitters have no contract)",
         "ast.listify",
     ]
     if ctx.tier == "thorough":
